@@ -1014,14 +1014,17 @@ func r6C14b(c *Ctx) {
 	}
 	n := 0
 	bad := ""
-	for _, ci := range AllCalls(fn) {
-		bi, ok := ci.Common().Value.(*ssa.Builtin)
-		if !ok || bi.Name() != "append" || len(ci.Common().Args) < 2 {
-			continue
+	var pathAppends []ssa.CallInstruction
+	for _, g := range samePkgClosure(p, fn) { // the path loop may be a helper of the builder
+		for _, ci := range AllCalls(g) {
+			bi, ok := ci.Common().Value.(*ssa.Builtin)
+			if ok && bi.Name() == "append" && len(ci.Common().Args) >= 2 && strings.HasSuffix(ci.Value().Type().String(), "HTTPIngressPath") {
+				pathAppends = append(pathAppends, ci)
+			}
 		}
-		if t := TermOf(ci.Common().Args[0]); !(MField("Paths")(t) || t.Any(MField("Paths"))) {
-			continue
-		}
+	}
+	for _, ci := range pathAppends {
+		fn := ci.Parent()
 		n++
 		for _, f := range FactsFor(fn).At(ci.Block()) {
 			if isLoopExitFact(f) || f.If == nil || f.If.Parent() != fn {
